@@ -79,9 +79,11 @@ def run(ctx):
     # escapes denoting bytes >= 0x80, names with hyphens / digits / lower case, the longest forms
     designed_raw = ['caf\\xe9*', '\\xe9', '\\xff\\x80', '[\\xe9\\xff]', '\\351', '\\377', 'a\\N{NO-BREAK SPACE}b*', 'x[\\N{HYPHEN-MINUS}\\N{EM DASH}]y*',
              '\\N{CJK UNIFIED IDEOGRAPH-4E00}?', '\\N{latin small letter a}', '\\N{LATIN CAPITAL LETTER A WITH GRAVE}', '\\N{DIGIT ONE}\\N{DIGIT TWO}',
-             '\\u00e9', '\\U000000e9', '\\xE9', '\\XE9', '\\N{NO-BREAK SPACE', '\\N{-}']
+             '\\u00e9', '\\U000000e9', '\\xE9', '\\XE9', '\\N{NO-BREAK SPACE', '\\N{-}',
+                    # escapes that decode to a backslash: the decoded backslash escapes what follows
+                    '\\x5c*', 'a\\x5c*', '\\134?', '\\u005c[', '\\U0000005c*', '\\N{REVERSE SOLIDUS}*', '\\x5c\\x5c', '\\x5cx41', 'a\\x5c']
     pats += designed_raw
-    toks = ['\\', 'x', 'u', 'U', 'N{', '}', '41', '7c', '0', '7', '8', 'a', 'n', '/', '*', '[', ']', '\\\\', 'DIGIT ONE', '0041', '00000041', 'e9', 'ff', 'NO-BREAK SPACE', 'HYPHEN-MINUS']
+    toks = ['\\', 'x', 'u', 'U', 'N{', '}', '41', '7c', '0', '7', '8', 'a', 'n', '/', '*', '[', ']', '\\\\', 'DIGIT ONE', '0041', '00000041', 'e9', 'ff', 'NO-BREAK SPACE', 'HYPHEN-MINUS', '5c', '134', '005c']
     for _ in range(2000 if ctx.quick else 30000):
         pats.append(''.join(rng.choice(toks) for _ in range(rng.randint(1, 8))))
     pats = sorted(set(pats))
@@ -164,6 +166,38 @@ def run(ctx):
                         for n, r in zip(names[:6], forced):
                             if r != (n.lower() == lit.lower()):
                                 ctx.counterexample('without RAWCHARS (FORCEWIN) %r must be the literal %r' % (p, lit), {'pattern': p, 'name': n, 'impl': r})
+    # the `exclude=` argument is decoded like the patterns, on the file-system walk too (glob, iglob, Path.glob)
+    import tempfile as _tf2, shutil as _sh2, os as _os2
+    from wcmatch import pathlib as PLm
+    t2 = _tf2.mkdtemp(prefix='c20x_')
+    try:
+        for n_ in ('a1', 'a2', 'b1', 'x61q', 'ad'):
+            open(_os2.path.join(t2, n_), 'w').close()
+        for rawx, decx in (('\\x61*', 'a*'), ('\\x2a1', '*1'), ('\\141*', 'a*'), ('b\\x31', 'b1'), ('\\u0061?', 'a?')):
+            for isb2 in (False, True):
+                if isb2 and '\\u' in rawx:
+                    continue
+                cv = (lambda z: z.encode()) if isb2 else (lambda z: z)
+                evals += 1
+                want = sorted(Gm.glob(cv('*'), flags=Gm.GLOBSTAR, root_dir=cv(t2), exclude=cv(decx)))
+                got = sorted(Gm.glob(cv('*'), flags=Gm.GLOBSTAR | Gm.RAWCHARS, root_dir=cv(t2), exclude=cv(rawx)))
+                goti = sorted(Gm.iglob(cv('*'), flags=Gm.GLOBSTAR | Gm.RAWCHARS, root_dir=cv(t2), exclude=cv(rawx)))
+                gotl = sorted(Gm.glob([cv('*')], flags=Gm.GLOBSTAR | Gm.RAWCHARS, root_dir=cv(t2), exclude=[cv(rawx)]))
+                gotp = want if isb2 else sorted(x.name for x in PLm.Path(t2).glob('*', flags=Gm.GLOBSTAR | Gm.RAWCHARS, exclude=rawx))
+                if not (got == goti == gotl == want) or gotp != want:
+                    ctx.counterexample('glob(\'*\', RAWCHARS, exclude=%r) = %r (iglob %r, lists %r, Path.glob %r); with the decoded exclusion %r: %r' % (
+                        rawx, got, goti, gotl, gotp, decx, want), {'exclude': rawx, 'decoded': decx, 'bytes': isb2})
+        for badx in ('\\x6', 'a\\u006', '\\N{'):
+            evals += 1
+            try:
+                Gm.glob('*', flags=Gm.RAWCHARS, root_dir=t2, exclude=badx)
+                ctx.counterexample('glob(\'*\', RAWCHARS, exclude=%r) accepted an incomplete escape' % badx, {'exclude': badx})
+            except SyntaxError:
+                pass
+            except Exception as ex:
+                ctx.counterexample('glob(exclude=%r) raised %s instead of SyntaxError' % (badx, type(ex).__name__), {'exclude': badx})
+    finally:
+        _sh2.rmtree(t2, ignore_errors=True)
     # WcMatch goes through the same decoding (it always splits on |)
     import tempfile, shutil, os
     tmp = tempfile.mkdtemp(prefix='c20_')
